@@ -255,8 +255,23 @@ def series_stored(M, case, V):
             ("stored food fat = kcals x fat fraction", "eq", s.initial_available.fat, want * 0.01)]
 
 
-SERIES = dict(greenhouse=series_greenhouse, fish=series_fish, grass=series_grass, feed_biofuel=series_feed_biofuel, scp=series_scp, cs=series_cs, seaweed=series_seaweed, stored=series_stored)
-MODS = dict(greenhouse=("oc", "gh", "fd", "pm"), fish=("sf", "fd"), grass=("md", "fd", "uc"), feed_biofuel=("fb", "fd"), scp=("scp", "fd"), cs=("cs", "fd"), seaweed=("sw",), stored=("st", "fd"))
+def series_year1(M, case, V):
+    """the first-year rule on its own: symbolic first-year ratio and symbolic shares of the harvest in January..April (the series groups use one fixed seasonality,
+    which never reaches the 'less than a quarter of the harvest after April' region)"""
+    r1 = V("first_year_ratio", -0.5, 2.0)
+    early = [V("share_%s" % mn, 0, 1) for mn in MONTHS[:4]]
+    rest = 1 - (early[0] + early[1] + early[2] + early[3])
+    season = early + [rest / 8] * 8
+    if not (rest >= 0):
+        return []
+    got = M.oc.OutdoorCrops.get_year_1_ratio_using_fraction_harvest_before_may(None, r1, season, case["country"])
+    want = S.year1_ratio(r1, season, case["country"])
+    return [("first-year ratio for May-December follows the documented rule (nothing left after April -> 0; under a quarter of the harvest after April -> unchanged; else remaining / normal share)", "eq", got, want),
+            ("first-year ratio non-negative", "ge0", got, 0)]
+
+
+SERIES = dict(year1=series_year1, greenhouse=series_greenhouse, fish=series_fish, grass=series_grass, feed_biofuel=series_feed_biofuel, scp=series_scp, cs=series_cs, seaweed=series_seaweed, stored=series_stored)
+MODS = dict(year1=("oc",), greenhouse=("oc", "gh", "fd", "pm"), fish=("sf", "fd"), grass=("md", "fd", "uc"), feed_biofuel=("fb", "fd"), scp=("scp", "fd"), cs=("cs", "fd"), seaweed=("sw",), stored=("st", "fd"))
 
 
 def worker_series(case, seed):
@@ -375,6 +390,7 @@ def main(tier, seed, only=None):
             ser.append(dict(kind="stored", sym_months=["FEB", "MAR", "APR", "MAY", "JUN"], percent=pct, untouched=unt, start=start))
     stubs = STUBS + ["food.isinstance accepts SymReal as float", "x**30 (seaweed growth) and x**e (relocation) as uninterpreted functions shared by code path and oracle",
                      "Food.conversions set to concrete nutrition settings (2100 kcal, 4.5e7 people)"]
+    ser += [dict(kind="year1", country=c) for c in ("XXX", "ZAF", "JPN", "PRK", "KOR")]
     groups = [
         dict(name="outdoor_crops_series", fn="worker_outdoor_c08", cases=outdoor, replay=C09.replay_outdoor,
              functions=["OutdoorCrops.calculate_monthly_production", "get_year_1_ratio_using_fraction_harvest_before_may", "assign_reduction_from_climate_impact",
@@ -385,7 +401,8 @@ def main(tier, seed, only=None):
         dict(name="other_supply_series", fn="worker_series", cases=ser, replay=replay_series,
              functions=["Parameters.init_greenhouse_params", "Greenhouses.get_greenhouse_yield_per_ha", "Seafood.__init__/set_seafood_production", "MeatAndDairy.__init__ (grass)",
                         "FeedAndBiofuels.get_feed_usage/get_biofuel_usage/get_biofuels_and_feed_from_delayed_shutoff", "MethaneSCP.__init__/calculate_monthly_scp_caloric_production/create_scp_food_from_kcals",
-                        "CellulosicSugar.calculate_monthly_cs_production", "Seaweed.__init__/get_built_area/get_growth_rates", "StoredFood.__init__/calculate_stored_food_to_use"],
+                        "CellulosicSugar.calculate_monthly_cs_production", "Seaweed.__init__/get_built_area/get_growth_rates", "StoredFood.__init__/calculate_stored_food_to_use",
+                        "OutdoorCrops.get_year_1_ratio_using_fraction_harvest_before_may (symbolic ratio and early-harvest shares)"],
              bounds="horizons %s, every month; start-up delays %s; shut-off durations incl. 0 and NMONTHS; stored-food regimes (percent used, untouched share) x start month" % (H, delays),
              symbolic="one factor per case: annual baseline / global population / production share / yearly ratios / monthly percentages / area fractions / 4-5 of the 12 monthly stocks",
              assumptions=["inputs non-negative within generous upper bounds", "waste percentages concrete (one symbolic factor per product)"], stubs=stubs,
